@@ -14,6 +14,10 @@ type sqlMatch struct {
 	patternObj sql.SQLObject
 }
 
+func NewSqlMatch(col sql.SQLObject, pattern string) sql.SQLObject {
+	return &sqlMatch{col: col, pattern: pattern}
+}
+
 func (s *sqlMatch) String(ctx *sql.Ctx, opts ...int) (string, error) {
 	strCol, err := s.col.String(ctx, opts...)
 	if err != nil {
